@@ -92,6 +92,26 @@ import itertools as _it
 
 from .. import core as _core, drivers as _drivers
 from . import predeclared as _pre
+from . import opfaults as _opf
+
+
+def _iter_victim(scfg):
+    from ..hier import levels
+
+    def op():
+        list(scfg)
+        for reg, sc in levels(scfg):
+            v = sc.concealed_region_view
+            list(v)
+            list(v.items())
+    return op
+
+
+def _iter_oracle(scfg):
+    from ..oracles.itercheck import check_iteration
+
+    return check_iteration(scfg)
+
 
 _plan1 = CHECK.plan
 _run1 = CHECK.run_shard
@@ -109,6 +129,7 @@ def _plan2(tier, seed):
         shards.append({"kind": "multi_rand", "seed": seed, "start": start, "count": per,
                        "tier": tier})
     shards += _pre.plan(tier, seed)
+    shards += _opf.plan(tier, seed, 300, 10000)
     return shards
 
 
@@ -164,6 +185,8 @@ def _run2(spec):
     single = spec["case"].get("kind") if k == "single" else None
     if k == "predeclared" or single == "predeclared":
         return _pre.run_shard(spec, "C16", ("stage", "table", "iter"))
+    if k == "opfaults" or single == "opfault":
+        return _opf.run_shard(spec, "C16", ("stage", "table", "iter"), _iter_victim, _iter_oracle)
     if k not in ("multi_exh", "multi_rand") and single != "multidigraph":
         return _run1(spec)
     _attach.install(("stage", "table", "iter"))
